@@ -145,6 +145,7 @@ func genSets(r *vgen.Rand, n int) ([][]kv, map[string]uint64) {
 type delivery map[string]map[uint64]int64 // metric name -> key -> value (model units)
 
 type recExporter struct {
+	gate chan struct{} // non-nil: Export hands the data over, then stalls until the gate is closed or its context ends
 	temp metricdata.Temporality
 	mu   sync.Mutex
 	exps []delivery
@@ -156,11 +157,18 @@ func (e *recExporter) Temporality(sdk.InstrumentKind) metricdata.Temporality { r
 func (e *recExporter) Aggregation(k sdk.InstrumentKind) sdk.Aggregation {
 	return sdk.DefaultAggregationSelector(k)
 }
-func (e *recExporter) Export(_ context.Context, rm *metricdata.ResourceMetrics) error {
+func (e *recExporter) Export(ctx context.Context, rm *metricdata.ResourceMetrics) error {
 	d := e.ext(rm)
 	e.mu.Lock()
 	e.exps = append(e.exps, d)
 	e.mu.Unlock()
+	if e.gate != nil {
+		select {
+		case <-e.gate:
+		case <-ctx.Done():
+			return ctx.Err()
+		}
+	}
 	return nil
 }
 func (e *recExporter) ForceFlush(context.Context) error { return nil }
@@ -840,6 +848,135 @@ func runConcurrent(w *vgen.Writer, r *vgen.Rand, desc string) {
 		"concurrent", nDel >= 2)
 }
 
+// ---- provider-level Shutdown / ForceFlush whose context expires while an earlier reader is stalled ----
+
+// runCtxExpiry: reader 0 is a periodic reader whose exporter stalls; MeterProvider.Shutdown(ctx) (variant A)
+// or MeterProvider.ForceFlush(ctx) (variant B) is called with a context that expires during that stall.
+// A: every other (periodic) reader must still have made its final collection and exported everything
+//
+//	recorded before the call by the time Shutdown returns (the stalled reader is outside the claim).
+//
+// B: after the stall is released and the provider is shut down with a live context, every reader
+//
+//	(the stalled one included) has delivered everything exactly once.
+func runCtxExpiry(w *vgen.Writer, r *vgen.Rand, desc string, variantA bool) {
+	n := r.Range(2, 3)
+	cfgs := make([]readerCfg, n)
+	for i := range cfgs {
+		cfgs[i] = readerCfg{periodic: true, delta: r.Bool()}
+		if !variantA && i > 0 && r.Chance(1, 3) {
+			cfgs[i].periodic = false
+		}
+	}
+	nInst := r.Range(1, 2)
+	sets, keyIdx := genSets(r, r.Range(1, 3))
+	wd, err := build(w, r, desc, cfgs, nInst, time.Hour, keyIdx, 0, true, false)
+	if err != nil {
+		w.Violation("setup failed: "+err.Error(), desc)
+		return
+	}
+	gate := make(chan struct{})
+	wd.exps[0].gate = gate
+	ctx := context.Background()
+	totals := make([]map[uint64]int64, nInst)
+	for i := range totals {
+		totals[i] = map[uint64]int64{}
+	}
+	addSome := func() {
+		for j, m := 0, r.Range(3, 25); j < m; j++ {
+			i := r.Intn(nInst)
+			s := sets[r.Intn(len(sets))]
+			v := genValue(r, wd.insts[i])
+			wd.insts[i].add(ctx, v, metric.WithAttributes(toAttr(s)...))
+			totals[i][keyIdx[canon(s)]] += v
+		}
+	}
+	addSome()
+	timeout := time.Duration(r.Range(50, 100)) * time.Millisecond
+	dels := make([][]delivery, n)
+	finished := make(chan struct{})
+	var callErr error
+	go func() {
+		defer close(finished)
+		cctx, cancel := context.WithTimeout(ctx, timeout)
+		defer cancel()
+		if variantA {
+			callErr = wd.mp.Shutdown(cctx)
+			for rd := 1; rd < n; rd++ { // what the other readers have exported by the time the call returned
+				dels[rd] = wd.exps[rd].since(0)
+			}
+			close(gate)
+			return
+		}
+		callErr = wd.mp.ForceFlush(cctx)
+		addSome()
+		close(gate)
+		for rd, c := range cfgs {
+			if !c.periodic {
+				var rm metricdata.ResourceMetrics
+				if e := wd.manual[rd].Collect(ctx, &rm); e != nil {
+					wd.bad(fmt.Sprintf("final Collect returned %v", e))
+				}
+				dels[rd] = append(dels[rd], wd.extractor(wd.wantT[rd])(&rm))
+			}
+		}
+		if e := wd.mp.Shutdown(ctx); e != nil {
+			wd.bad(fmt.Sprintf("MeterProvider.Shutdown with a live context after the stall was released returned %v", e))
+		}
+		for rd, c := range cfgs {
+			if c.periodic {
+				dels[rd] = wd.exps[rd].since(0)
+			}
+		}
+	}()
+	select {
+	case <-finished:
+	case <-time.After(120 * time.Second):
+		w.Violation("MeterProvider.Shutdown/ForceFlush with an expiring context did not return within 120 s", desc)
+		close(gate)
+		return
+	}
+	if callErr == nil {
+		w.Violation("MeterProvider.Shutdown/ForceFlush returned nil although its context expired while a reader was stalled", desc)
+	}
+	first := 0
+	if variantA {
+		first = 1
+	}
+	var cfgT, cfgD []string
+	for _, c := range cfgs[first:] {
+		cfgT = append(cfgT, c.coq())
+		cfgD = append(cfgD, fmt.Sprintf("periodic=%v delta=%v", c.periodic, c.delta))
+	}
+	var addT []string
+	streamInst := make([]int, len(wd.streams))
+	for i, in := range wd.insts {
+		for _, si := range in.streams {
+			streamInst[si] = i
+		}
+	}
+	for _, i := range streamInst {
+		ks := make([]uint64, 0, len(totals[i]))
+		for k := range totals[i] {
+			ks = append(ks, k)
+		}
+		sort.Slice(ks, func(a, b int) bool { return ks[a] < ks[b] })
+		var ts []string
+		for _, k := range ks {
+			ts = append(ts, vgen.App("T", vgen.N(k), zig(totals[i][k])))
+		}
+		addT = append(addT, vgen.List(ts))
+	}
+	sub := &world{cfgs: cfgs[first:], streams: wd.streams}
+	kind := "ctx-expiry-forceflush"
+	if variantA {
+		kind = "ctx-expiry-shutdown"
+	}
+	w.Tally(kind)
+	term := vgen.App("CConc", vgen.List(cfgT), "false", vgen.List(addT), obsTerm(sub, dels[first:]))
+	w.Add(term, map[string]any{"history": desc, "judged_readers": cfgD, "stalled_reader": "reader 0 (periodic)", "timeout": timeout.String(), "views": wd.viewsD, "call_error": fmt.Sprint(callErr)}, kind, true)
+}
+
 func main() {
 	o := vgen.ParseFlags()
 	otel.SetLogger(logr.Discard())
@@ -879,6 +1016,11 @@ func main() {
 		guard(desc, func() {
 			runSequential(w, r, desc, genCfgs(r), r.Range(1, 3), r.Range(1, 5), nil, true, r.Range(3, 70), kind)
 		})
+	}
+	nCtx := o.Count(14, 200)
+	for n := 0; n < nCtx; n++ {
+		desc := fmt.Sprintf("seed=%d ctx-expiry=%d", o.Seed, n)
+		guard(desc, func() { runCtxExpiry(w, r, desc, n%2 == 0) })
 	}
 	nConc := o.Count(40, 600)
 	for n := 0; n < nConc; n++ {
